@@ -36,14 +36,19 @@ TOL_K = 8.0  # tolerance = TOL_K * eps(working dtype) * error scale
 
 
 def representable(fr: Fraction, p: int) -> bool:
-    """True iff the rational is a binary float with at most ``p`` significant bits."""
-    if fr == 0:
-        return True
-    n, d = abs(fr.numerator), fr.denominator
-    if d & (d - 1):
+    """True iff the rational is exactly a float32 (p == 24) / float64 (p == 53) value
+    (round trip through the type, so exponent range and subnormals are honoured)."""
+    try:
+        f = float(fr)
+    except OverflowError:
         return False
-    n >>= (n & -n).bit_length() - 1
-    return n.bit_length() <= p
+    if Fraction(f) != fr:
+        return False
+    if p == 24:
+        with np.errstate(all="ignore"):
+            g = float(np.float32(f))
+        return g == f
+    return True
 
 
 class NeuronRef:
@@ -53,6 +58,9 @@ class NeuronRef:
         self.wd = np.float32 if dtype == "float32" else np.float64
         self.prec = 24 if dtype == "float32" else 53
         self.eps = float(np.finfo(self.wd).eps)
+        # absolute rounding granularity near zero (spacing of subnormals); tolerances are
+        # TOL_K * (eps * scale + tiny)
+        self.tiny = float(np.finfo(self.wd).smallest_subnormal)
         self.big = 1e30 if dtype == "float32" else 1e290
         p = self.p
         self.rest = float(p["rest_v"])
@@ -66,7 +74,7 @@ class NeuronRef:
         if self.cls in ADAPT_THRESH:
             a = np.asarray(adapt, dtype=np.float64)
             th = self.thresh + a.sum(-1)
-            tol = 4 * self.eps * (abs(self.thresh) + np.abs(a).sum(-1))
+            tol = 4 * (self.eps * (abs(self.thresh) + np.abs(a).sum(-1)) + self.tiny)
             return th, tol
         return np.float64(self.thresh), np.float64(0.0)
 
@@ -107,14 +115,14 @@ class NeuronRef:
         return out, scale
 
     def tol(self, scale):
-        return TOL_K * self.eps * scale
+        return TOL_K * (self.eps * scale + self.tiny)
 
     def reset_value(self, vint, vtol):
         """Documented post-spike voltage and tolerance."""
         if self.cls == "GLIF2":
             m, b = self.p["reset_v_mul"], self.p["reset_v_add"]
             val = self.rest + m * (vint - self.rest) - b
-            tol = abs(m) * vtol + TOL_K * self.eps * (
+            tol = abs(m) * vtol + self.tol(
                 abs(self.rest) * (1 + abs(m)) + abs(m) * np.abs(vint) + abs(b)
             )
             return val, tol
